@@ -197,7 +197,7 @@ class Ctx:
         """a fragment of the pool; sometimes the respelled twin of one already used in this molecule"""
         r = self.rng
         smi = r.choice(pool)
-        if r.random() < 0.2:
+        if r.random() < 0.3:
             tw = [TWIN[u] for u in self.used if u in TWIN and TWIN[u] in pool]
             if tw:
                 smi = r.choice(tw)
